@@ -19,6 +19,9 @@ Init == cls \in Classes /\ args \in Assignments(cls) /\ phase = "created" /\ cfg
 GetConfig == phase = "created" /\ cfg1' = args /\ phase' = "config" /\ UNCHANGED <<cls, args, cfg2>>
 FromConfig == phase = "config" /\ phase' = "rebuilt" /\ UNCHANGED <<cls, args, cfg1, cfg2>>
 GetConfig2 == phase = "rebuilt" /\ cfg2' = cfg1 /\ phase' = "done" /\ UNCHANGED <<cls, args, cfg1>>
-Next == GetConfig \/ FromConfig \/ GetConfig2 \/ (phase = "done" /\ UNCHANGED vars)
-InvRoundTrip == phase = "done" => cfg2 = cfg1
+\* SaveModel / LoadModel: the object inside a Keras model written to disk (.keras, .h5) and read back; abstractly the
+\* file holds the config, so the reloaded object is the same assignment again
+SaveLoad == phase = "done" /\ phase' = "reloaded" /\ cfg2' = cfg1 /\ UNCHANGED <<cls, args, cfg1>>
+Next == GetConfig \/ FromConfig \/ GetConfig2 \/ SaveLoad \/ (phase = "reloaded" /\ UNCHANGED vars)
+InvRoundTrip == phase \in {"done", "reloaded"} => cfg2 = cfg1
 =============================================================================
